@@ -469,3 +469,180 @@ def csr_mirror_enumeration(facts):
                 "edge_references() reports each such edge twice ((a, b) and (b, a)) while edge_count() counts it once")
     o.r.floor = 2
     return o.r
+
+
+# ------------------------------------------------------------------------------------------------ C11 (floyd_warshall: a negative self-loop is a negative cycle)
+def fw_diagonal_first(facts):
+    o = Obl("FLOW-FWDIAG", "floyd_warshall (_floyd_warshall_path): the self-distance initialisation dist[i][i] = default is not executed AFTER the edge costs have "
+                           "been entered - otherwise it overwrites the cost of a self-loop and a negative self-loop (a negative cycle) leaves dist[i][i] = 0, "
+                           "so the final `dist[i][i] < 0` test cannot see it")
+    for b in o.need_fn(facts, "algo::floyd_warshall::_floyd_warshall_path"):
+        diag, edge = [], []
+        for i, t in b.calls():
+            if not callee_name(t["f"]).endswith("floyd_warshall::set_object") or len(t["args"]) < 4:
+                continue
+            r1, r2 = named_roots(b, t["args"][1]), named_roots(b, t["args"][2])
+            ve = b.expr(t["args"][3], 10)
+            if r1 and r1 == r2 and has_call(ve, ("default",)):
+                diag.append(i)
+            elif any(isinstance(s, tuple) and s[0] == "call" and s[1].get("trait") in ("core::ops::FnMut", "core::ops::Fn", "core::ops::FnOnce") for s in walk_expr(ve)):
+                edge.append(i)
+        # direct stores dist[i][i] = default / dist[s][t] = cost are not recognised: silent unless both forms are found
+        if not (diag and edge):
+            o.r.silent += 1
+        o.check(b, "has-both", b.line, True, "%d self-distance initialisation(s), %d edge-cost store(s) recognised%s"
+                % (len(diag), len(edge), "" if (diag and edge) else " - unrecognised shape: silent"), "")
+        if diag and edge:
+            late = [d for d in diag if any(d in reach(b, e) for e in edge)]
+            o.check(b, "diagonal-before-edges", b.line, not late, "the self-distances are initialised before the edge costs are entered",
+                    "dist[i][i] = default is (re)written after the edge costs were entered: the cost of a self-loop is discarded, so a graph whose only "
+                    "negative cycle is a negative self-loop gets Ok from floyd_warshall / floyd_warshall_path while bellman_ford and "
+                    "find_negative_cycle report the cycle")
+    o.r.floor = 2
+    return o.r
+
+
+def fw_infinity_guard(facts):
+    o = Obl("GUARD-INFINITY", "floyd_warshall (_floyd_warshall_path): BoundedMeasure::max() stands for `unreachable`; the path sum dist[i][k] + dist[k][j] is formed only "
+                              "when NEITHER leg is max() - both `!= max()` tests dominate the overflowing_add - otherwise max() + (negative) < max() turns an "
+                              "unreachable pair into a finite distance")
+    for b in o.need_fn(facts, "algo::floyd_warshall::_floyd_warshall_path"):
+        n = 0
+        for i, t in b.calls():
+            if last_seg(t["f"]["path"]) != "overflowing_add":
+                continue
+            n += 1
+            legs = set()
+            for (e, truth, src) in dom_atoms(b, i):
+                if not (isinstance(e, tuple) and e[0] == "bin" and truth is True and e[1] in ("Ne", "Lt", "Gt")):
+                    continue
+                sides = [e[2], e[3]]
+                mx = [k for k, s_ in enumerate(sides) if has_call(s_, ("max",)) and not has_call(s_, ("index",))]
+                if len(mx) != 1:
+                    continue
+                other = sides[1 - mx[0]]
+                if has_call(other, ("index",)):
+                    legs.add(src)       # one test per switch block
+            o.check(b, "path-sum#%d" % n, t["line"], len(legs) >= 2, "both legs tested against max() before they are added",
+                    "the path sum is formed without testing both legs against BoundedMeasure::max() (%d leg test(s) dominate it): with a negative edge "
+                    "k -> j, an unreachable i -> k (max()) gives max() + negative < max(), so the unreachable pair (i, j) is reported with a finite "
+                    "distance and a predecessor" % len(legs))
+        o.check(b, "path-sums", b.line, n >= 1, "%d path sum(s)" % n, "overflowing_add not found in _floyd_warshall_path")
+    o.r.floor = 2
+    return o.r
+
+
+def spfa_fifo(facts):
+    o = Obl("FLOW-FIFO", "spfa: the work list is first-in first-out - elements are removed from the end opposite to the one they are inserted at. The bound "
+                         "`a vertex is dequeued at most |V| times unless there is a negative cycle` that spfa's Err rests on holds for FIFO order only; "
+                         "with a stack (Vec::push / Vec::pop) an acyclic graph can exceed it")
+    BACK = ("pop", "pop_back", "push", "push_back")
+    FRONT = ("pop_front", "push_front")
+    for b in o.need_fn(facts, "algo::spfa::spfa"):
+        rem, ins = [], []
+        for i, t in b.calls():
+            nm = last_seg(t["f"]["path"])
+            np_ = norm_path(t["f"]["path"])
+            if "Vec" not in np_ and "VecDeque" not in np_:
+                continue
+            if nm in ("pop", "pop_back", "pop_front"):
+                rem.append((i, nm, named_roots(b, t["args"][0])))
+            elif nm in ("push", "push_back", "push_front"):
+                ins.append((i, nm, named_roots(b, t["args"][0])))
+        n = 0
+        for (ri, rn, rr) in rem:
+            for (ii, inn, ir) in ins:
+                if not (rr & ir) or ii not in reach(b, ri):
+                    continue
+                n += 1
+                same_end = (rn in BACK) == (inn in BACK)
+                o.check(b, "%s/%s#%d" % (rn, inn, n), b.blocks[ri]["term"]["line"], not same_end, "removal and insertion at opposite ends (FIFO)",
+                        "the work list is used as a stack (%s / %s on the same end): the |V|-visits bound does not hold for last-in first-out order, so "
+                        "spfa returns Err(NegativeCycle) on graphs without any negative cycle (a 6-node DAG suffices)" % (rn, inn))
+        o.check(b, "worklist", b.line, n >= 1, "%d removal/insertion pair(s) on the work list" % n, "no pop/push pair on one work list found in spfa")
+    o.r.floor = 2
+    return o.r
+
+
+# ------------------------------------------------------------------------------------------------ C20 (dsatur colour count)
+def dsatur_count(facts):
+    o = Obl("GUARD-COLORCOUNT", "dsatur_coloring reports k = number of colours in use: `running maximum + 1` is returned only on a path on which at least one node was "
+                                "coloured (an emptiness / count test decides the value) - on the empty graph no colour is in use and k is 0")
+    for b in o.need_fn(facts, "algo::coloring::dsatur_coloring"):
+        n = 0
+        for i, j, st in b.stmts():
+            rv = st["rv"]
+            if not (st["lhs"]["l"] == 0 and not st["lhs"]["p"] and rv["k"] == "agg" and rv.get("ak") == "tuple" and len(rv["o"]) == 2):
+                continue
+            n += 1
+            l = op_local(rv["o"][1])
+            for _ in range(4):          # through plain copies
+                sd = b.single_def(l) if l is not None else None
+                if sd and sd[0] == "st":
+                    rv2 = b.blocks[sd[1]]["st"][sd[2]]["rv"]
+                    l2 = op_local(rv2["o"][0]) if rv2["k"] == "use" and op_place(rv2["o"][0]) is not None and not op_place(rv2["o"][0])["p"] else None
+                    if l2 is None:
+                        break
+                    l = l2
+                else:
+                    break
+            defs = b.defs().get(l, []) if l is not None else []
+            e = b.expr(rv["o"][1], 6)
+            plus_one = [s for s in walk_expr(e) if isinstance(s, tuple) and s[0] == "bin" and s[1] in ("Add", "AddWithOverflow") and
+                        any(isinstance(x, tuple) and x[0] == "const" and x[1] == "1" for x in (s[2], s[3]))]
+            multi = len([d for d in defs if d[0] in ("st", "call")]) > 1
+            if not plus_one and not multi:
+                o.check(b, "count#%d" % n, st["line"], True, "count not formed as maximum + 1", "")
+                continue
+            # where is the `+ 1` computed?  it must be control dependent on an emptiness / count test
+            blks = []
+            for d in defs:
+                if d[0] != "st":
+                    continue
+                de = b.place_expr({"l": l, "p": []}, 6) if False else None
+                rvd = b.blocks[d[1]]["st"][d[2]]["rv"]
+                ed = b.expr(rvd["o"][0], 6) if rvd["k"] == "use" else None
+                is_plus = rvd["k"] == "bin" and rvd["op"].startswith("Add") or (ed is not None and any(
+                    isinstance(s_, tuple) and s_[0] == "bin" and s_[1] in ("Add", "AddWithOverflow") for s_ in walk_expr(ed)))
+                if is_plus or not multi:
+                    blks.append(d[1])
+            blks = blks or [i]
+            guarded = False
+            for blk in blks:
+                for (ae, truth, src) in dom_atoms(b, blk):
+                    tops = [ae] if not (isinstance(ae, tuple) and ae[0] == "bin") else [ae[2], ae[3]]
+                    for tp in tops:
+                        tp = strip_casts(tp)
+                        if isinstance(tp, tuple) and tp[0] == "call" and last_seg(tp[1]["path"]) in ("is_empty", "len", "node_count"):
+                            guarded = True
+            o.check(b, "count#%d" % n, st["line"], guarded, "maximum + 1 only when a node was coloured",
+                    "the reported number of colours is `max_color + 1` unconditionally: for a graph without nodes (empty, or a StableGraph whose nodes "
+                    "were all removed) it reports 1 colour although the colouring uses none")
+        o.check(b, "returns", b.line, n >= 1, "%d return tuple(s)" % n, "return tuple not found in dsatur_coloring")
+    o.r.floor = 2
+    return o.r
+
+
+# ------------------------------------------------------------------------------------------------ C06 (UndirectedAdaptor: a self-loop is in both halves)
+def undirected_adaptor_symm(facts):
+    r = RuleResult("ADAPTOR-SYMM", "UndirectedAdaptor presents the symmetrised graph: neighbors(n) / edges(n) are built from the inner graph's Incoming and Outgoing lists of n; "
+                                   "a self-loop n -> n is in BOTH lists, so one of the two halves has to exclude it (as Graph<Undirected> does with its skip_start) - a bare "
+                                   "chain(incoming, outgoing) lists every self-loop twice")
+    n = 0
+    for b in facts.bodies:
+        if b.file != "src/visit/undirected_adaptor.rs" or b.kind != "AssocFn" or b.name not in ("neighbors", "edges") or "UndirectedAdaptor" not in (b.impl_self or ""):
+            continue
+        for i, t in b.calls():
+            if norm_path(t["f"]["path"]) != "core::iter::Iterator::chain" or len(t["args"]) < 2:
+                continue
+            n += 1
+            halves = [strip_casts(b.expr(a, 6)) for a in t["args"][:2]]
+            bare = [isinstance(h, tuple) and h[0] == "call" and last_seg(h[1]["path"]) in ("neighbors_directed", "edges_directed") for h in halves]
+            if all(bare):
+                r.bad(Violation("ADAPTOR-SYMM", b.npath, "chain", b.file, t["line"],
+                                "%s(n) is chain(%s(n, Incoming), %s(n, Outgoing)) with neither half filtered: a self-loop n -> n of the inner graph is yielded twice, "
+                                "while the same edges in a Graph<Undirected> are yielded once" % (b.name, last_seg(halves[0][1]["path"]), last_seg(halves[1][1]["path"]))))
+            else:
+                r.ok(b.npath, "chain", "one half is wrapped (filtered): a self-loop is yielded once")
+    r.floor = 2
+    return r
